@@ -25,7 +25,7 @@ import time
 import z3
 
 from . import rseval, rsparse
-from .common import REPO
+from .common import REPO, concretize, native_histories
 from .rseval import Struct, Enum, NONE, Some, Uninterp
 
 FILES = ["src/naming/service.rs", "src/naming/model.rs"]
@@ -150,9 +150,20 @@ def scenario(prog, nops, stats, mode, rich=False):
             return "an instance is listed twice in the set of persistent instances"
         return None
 
+    ops_box = [[]]
+
+    def snapshot(svc):
+        return {"instance_size": svc["instance_size"], "healthy_instance_size": svc["healthy_instance_size"],
+                "instances": {str(k["port"]): {"healthy": v["healthy"], "ephemeral": v["ephemeral"], "enabled": v["enabled"]} for k, v in svc["instances"].items()}}
+
     def thunk():
+        r = thunk_inner()
+        return (r, list(ops_box[0]))
+
+    def thunk_inner():
         svc = new_service(it)
         log = []
+        rec = ops_box[0] = []
         shadow = {}  # port -> last registered instance (reference registry)
         last_beat = {}
         overdue = {}
@@ -181,6 +192,9 @@ def scenario(prog, nops, stats, mode, rich=False):
                                                             "from_update": sy.bool(i, "t_from_update") if rich else False}))
                 from_sync = sy.bool(i, "from_sync") if (mode == "book" and rich) else False
                 existed = key in svc["instances"]
+                rec.append({"op": "register", "port": port, "t": t, "weight": ins["weight"], "enabled": ins["enabled"], "healthy": ins["healthy"], "ephemeral": ins["ephemeral"],
+                            "from_grpc": ins["from_grpc"], "from_cluster": ins["from_cluster"], "client_id": ins["client_id"], "from_sync": from_sync,
+                            "tag": dict(tag.payload[0]) if has_tag else None})
                 r = it.call_method("Service", "update_instance", svc, [ins, tag, from_sync, NONE])
                 log.append(("register", port, "t=%s" % t, "existed" if existed else "new"))
                 now = svc["instances"].get(key)
@@ -202,6 +216,7 @@ def scenario(prog, nops, stats, mode, rich=False):
                 with_cid = it.branch(sy.bool(i, "remove_has_client_id"))
                 cid = cids[i] if with_cid else None
                 old = svc["instances"].get(key)
+                rec.append({"op": "remove", "port": port, "client_id": cid})
                 r = it.call_method("Service", "remove_instance", svc, [key, Some(cid) if cid is not None else NONE])
                 log.append(("remove", port, "with client id" if with_cid else "without client id"))
                 if old is not None:
@@ -217,12 +232,15 @@ def scenario(prog, nops, stats, mode, rich=False):
                             return ("violation", "a deregistration by the owner (or without client id, or of a persistent instance) leaves the instance registered", log, "remove-ignored")
                         cover("foreign removal refused")
             elif op == "mark_invalid":
+                rec.append({"op": "mark_invalid", "port": port})
                 it.call_method("Service", "update_instance_healthy_invalid", svc, [key])
                 log.append(("mark_invalid", port))
             elif op == "mark_valid":
+                rec.append({"op": "mark_valid", "port": port})
                 it.call_method("Service", "update_perpetual_instance_healthy_valid", svc, [key])
                 log.append(("mark_valid", port))
             elif op == "refresh":
+                rec.append({"op": "refresh"})
                 it.call_method("Service", "do_refresh_process_range", svc, [])
                 log.append(("refresh",))
             elif op == "tick":
@@ -234,6 +252,7 @@ def scenario(prog, nops, stats, mode, rich=False):
                 h_time, o_time = now_t - H_TIMEOUT, now_t - O_TIMEOUT
                 if o_time < 0:
                     raise rseval.PathAbort()  # u64 casts of negative times are outside the scenario (the actor starts long after the epoch)
+                rec.append({"op": "tick", "now": now_t})
                 it.call_method("Service", "time_check", svc, [h_time, o_time])
                 log.append(("tick", now_t))
                 for k, (was_healthy, v) in before.items():
@@ -272,6 +291,8 @@ def scenario(prog, nops, stats, mode, rich=False):
                 for k in list(shadow):
                     if skey(k) not in svc["instances"]:
                         shadow.pop(k)
+            if rec:
+                rec[-1]["model_state"] = snapshot(svc)
             bad = check_invariants(svc, log)
             if bad:
                 return ("violation", bad, log, "bookkeeping")
@@ -296,9 +317,13 @@ def scenario(prog, nops, stats, mode, rich=False):
     stats["queries"] += it.queries
     stats["opaque"] = sorted(it.opaque_seen)
     s = z3.Solver()
-    for pc, r, exc in paths:
+    for c in cids:
+        s.add(z3.Or(c == z3.StringVal(""), c == z3.StringVal("c1"), c == z3.StringVal("c2")))
+    ok_paths = []
+    for pc, rr, exc in paths:
         if exc is not None:
             return {"message": "panic in service code: %s" % exc, "tags": ["panic"], "model": {}}
+        r, ops = rr
         if r[0] == "violation":
             s.push()
             s.add(*pc)
@@ -306,8 +331,21 @@ def scenario(prog, nops, stats, mode, rich=False):
                 m = s.model()
                 flags = {str(d): bool(m[d]) for d in m.decls() if z3.is_bool(m[d])}
                 s.pop()
-                return {"message": r[1], "tags": [r[3]], "model": {"history": [list(map(str, e)) for e in r[2]], "flags": flags}}
+                return {"message": r[1], "tags": [r[3]], "model": {"history": [list(map(str, e)) for e in r[2]], "flags": flags}, "ops": concretize(ops, m)}
             s.pop()
+        else:
+            ok_paths.append((pc, ops))
+    # translator validation material: sampled discharged paths with one model each
+    import random
+    rnd = random.Random(stats.get("seed", 0))
+    hist = []
+    for pc, ops in rnd.sample(ok_paths, min(stats.get("n_validate", 12), len(ok_paths))):
+        s.push()
+        s.add(*pc)
+        if s.check() == z3.sat:
+            hist.append({"ops": concretize(ops, s.model())})
+        s.pop()
+    stats["validate"] = hist
     return None
 
 
@@ -370,7 +408,7 @@ def run(tier, seed, which="C11"):
                       "every history of %d steps over {register/heartbeat at t, time_check at t} with t on the grid " + str(GRID) + ", health time-out %d, instance time-out %d; instance flags symbolic" % (H_TIMEOUT, O_TIMEOUT),
                       ["beating instance survives a tick", "silent instance marked unhealthy", "silent unhealthy instance removed"]))
     for name, mode, n, bound, need in plans:
-        stats = {"paths": 0, "queries": 0}
+        stats = {"paths": 0, "queries": 0, "seed": seed, "n_validate": 12 if tier == "quick" else 40}
         ob = {"engine": "smt", "harness": name, "encodes": enc, "encodes_files": FILES, "bound": bound % n if "%d" in bound else bound, "queries": 0, "solver_s": 0.0, "distinct": 0}
         try:
             ts = time.time()
@@ -380,8 +418,9 @@ def run(tier, seed, which="C11"):
             cov = {c: stats.get("covers", {}).get(c, 0) for c in need}
             ob["sample"] = {"paths_explored": stats["paths"], "opaque_symbols": stats.get("opaque", [])[:20], "covers": cov}
             missing = [c for c, k in cov.items() if k == 0]
+            ob["_validate"] = stats.get("validate", [])
             if viol is not None:
-                ob.update({"verdict": "violation", "message": viol["message"], "tags": viol["tags"], "counterexample": viol["model"]})
+                ob.update({"verdict": "violation", "message": viol["message"], "tags": viol["tags"], "counterexample": viol["model"], "_ops": viol.get("ops")})
             elif missing:
                 ob.update({"verdict": "inconclusive", "message": "reachability witness never reached: %s" % missing})
             else:
@@ -391,13 +430,34 @@ def run(tier, seed, which="C11"):
         obligations.append(ob)
     if which == "C12":
         obligations.append(filter_obligation(prog))
-    from lib import native
+    import os
+    extra = {"h_timeout": H_TIMEOUT, "o_timeout": O_TIMEOUT}
+    if not os.environ.get("VERIF_NO_NATIVE"):
+        for ob in obligations:
+            ops = ob.pop("_ops", None)
+            if ob.get("verdict") == "violation" and ops:
+                rr = native_histories(which, "c11", "violation", [{"ops": ops}], dict(extra, obligation=ob["harness"], model=ob.get("counterexample")), ob["message"])
+                ob["replay_path"] = rr["path"]
+                ob["replay"] = {"path": rr["path"], "outcome": rr["outcome"], "message": rr["message"]}
+                if rr["outcome"] != "reproduced":
+                    ob.update({"verdict": "inconclusive", "message": "engine-S counterexample (%s) did not reproduce on the real naming::service::Service (%s %s)" % (ob["message"], rr["outcome"], rr["message"])})
+                else:
+                    ob["message"] = "%s [real code: %s]" % (ob["message"], rr["message"][:300])
+            elif ob.get("verdict") == "violation":
+                from lib import native
+                path = native.write_replay(which, "c11", "model", [], {"engine": "smt", "mode": "model-only", "obligation": ob["harness"], "message": ob["message"], "model": ob.get("counterexample")})
+                ob["replay_path"] = path
+                ob["replay"] = {"path": path, "outcome": "model-only", "message": "no operation list for this obligation"}
+        hist = [h for ob in obligations for h in ob.pop("_validate", [])]
+        if hist:
+            val = native_histories(which, "c11", "validate", hist, extra)
+            info["translator_validation"] = val
+            if val["outcome"] != "passed":
+                obligations.append({"engine": "smt", "harness": "s11_translator_validation", "verdict": "inconclusive", "queries": 0, "solver_s": 0,
+                                    "message": "the real Service and the encoding disagree on a sampled history: %s" % val["message"]})
     for ob in obligations:
-        if ob.get("verdict") == "violation":
-            path = native.write_replay(which, "c11", "model", [], {"engine": "smt", "mode": "model-only", "obligation": ob["harness"], "message": ob["message"],
-                                                                   "model": ob.get("counterexample")})
-            ob["replay_path"] = path
-            ob["replay"] = {"path": path, "outcome": "model-only", "message": "operation history for naming::service::Service; replayable in a unit test"}
+        ob.pop("_ops", None)
+        ob.pop("_validate", None)
     info["wall_s"] = round(time.time() - t0, 1)
     return {"obligations": obligations, "info": info}
 
